@@ -2,6 +2,7 @@ import re
 
 from pydbml.classes import Note, Table, Column
 from pydbml.renderer.sql.default.renderer import DefaultSQLRenderer
+from pydbml.renderer.sql.default.utils import get_full_name_for_sql
 
 
 def prepare_text_for_sql(model: Note) -> str:
@@ -18,10 +19,17 @@ def prepare_text_for_sql(model: Note) -> str:
     return result
 
 
-def generate_comment_on(model: Note, entity: str, name: str) -> str:
+def qualifier_of(parent) -> str:
+    """What has to precede the quoted name of a table or column to address it as CREATE TABLE spells it."""
+    if isinstance(parent, Column):
+        return f'{get_full_name_for_sql(parent.table)}.' if parent.table is not None else ''
+    return f'"{parent.schema}".' if parent.schema != 'public' else ''
+
+
+def generate_comment_on(model: Note, entity: str, name: str, qualifier: str = '') -> str:
     """Generate a COMMENT ON clause out from this note."""
     quoted_text = f"'{prepare_text_for_sql(model)}'"
-    note_sql = f'COMMENT ON {entity.upper()} "{name}" IS {quoted_text};'
+    note_sql = f'COMMENT ON {entity.upper()} {qualifier}"{name}" IS {quoted_text};'
     return note_sql
 
 
@@ -35,7 +43,7 @@ def render_note(model: Note) -> str:
 
     if model.text:
         if isinstance(model.parent, (Table, Column)):
-            return generate_comment_on(model, model.parent.__class__.__name__, model.parent.name)
+            return generate_comment_on(model, model.parent.__class__.__name__, model.parent.name, qualifier_of(model.parent))
         else:
             text = prepare_text_for_sql(model)
             return '\n'.join(f'-- {line}' for line in text.split('\n'))
